@@ -22,6 +22,11 @@ enum Op {
     ScanShared,
     ScanShared2,
     PeekShared,
+    /// scans with the shared scanner L: one mode with two lookahead patterns whose candidates
+    /// alternate within one token, plus a third lookahead in a second mode
+    ScanL,
+    ScanL2,
+    PeekL,
 }
 
 fn modes_a() -> Vec<ScannerMode> {
@@ -40,6 +45,31 @@ fn modes_a_prime() -> Vec<ScannerMode> {
 
 fn modes_b() -> Vec<ScannerMode> {
     vec![ScannerMode::new("OTHER", vec![Pattern::new("[ab]+".into(), 3), Pattern::new("x".into(), 1)], vec![])]
+}
+
+fn modes_l() -> Vec<ScannerMode> {
+    let la = |p: &str, tt: usize, pos: bool, l: &str| Pattern::new(p.into(), tt).with_lookahead(Lookahead::new(pos, l.into()));
+    vec![
+        ScannerMode::new("L", vec![la("[ab]*a", 0, false, "!"), la("[ab]*b", 1, false, "\\?"), Pattern::new("[!?]".into(), 2), la("x", 3, true, "[ab]+!")], vec![(3, 1)]),
+        ScannerMode::new("M", vec![la("a", 0, true, "b"), la("a", 1, false, "b"), Pattern::new("b".into(), 2), Pattern::new("!".into(), 3)], vec![(3, 0)]),
+    ]
+}
+
+const INPUT_L: &str = "abab!ba?xab!ab!";
+const INPUT_L2: &str = "ba?ab";
+
+fn scan_l(sc: &Scanner, input: &str) -> Vec<(usize, usize, usize)> {
+    sc.find_iter(input).map(|m| (m.token_type(), m.start(), m.end())).collect()
+}
+
+fn peek_l(sc: &Scanner) -> Vec<(usize, usize, usize)> {
+    let mut it = sc.find_iter(INPUT_L);
+    let mut v = vec![];
+    if let PeekResult::Matches(m) | PeekResult::MatchesReachedEnd(m) = it.peek_n(2) {
+        v.extend(m.iter().map(|m| (m.token_type(), m.start(), m.end())));
+    }
+    v.extend(it.map(|m| (m.token_type(), m.start(), m.end())));
+    v
 }
 
 fn modes_bad() -> Vec<ScannerMode> {
@@ -76,8 +106,11 @@ fn peek(sc: &Scanner) -> Vec<(usize, usize, usize)> {
     v
 }
 
-fn run_op(op: Op, shared: &Scanner) -> Obs {
+fn run_op(op: Op, shared: &Scanner, shared_l: Option<&Scanner>) -> Obs {
     match op {
+        Op::ScanL => Ok(scan_l(shared_l.expect("L is built when a script uses it"), INPUT_L)),
+        Op::ScanL2 => Ok(scan_l(shared_l.expect("L is built when a script uses it"), INPUT_L2)),
+        Op::PeekL => Ok(peek_l(shared_l.expect("L is built when a script uses it"))),
         Op::BuildA | Op::BuildA2 => ScannerBuilder::new().add_scanner_modes(&modes_a()).build().map(|s| scan(&s)).map_err(|_| "err".to_string()),
         Op::BuildAPrime => ScannerBuilder::new().add_scanner_modes(&modes_a_prime()).build().map(|s| scan(&s)).map_err(|_| "err".to_string()),
         Op::BuildBad => ScannerBuilder::new().add_scanner_modes(&modes_bad()).build().map(|s| scan(&s)).map_err(|_| "err".to_string()),
@@ -99,6 +132,9 @@ fn expected(op: Op) -> Obs {
         Op::ScanShared => Ok(scan(&unc(modes_a()).unwrap())),
         Op::ScanShared2 => Ok(scan2(&unc(modes_a()).unwrap())),
         Op::PeekShared => Ok(peek(&unc(modes_a()).unwrap())),
+        Op::ScanL => Ok(scan_l(&unc(modes_l()).unwrap(), INPUT_L)),
+        Op::ScanL2 => Ok(scan_l(&unc(modes_l()).unwrap(), INPUT_L2)),
+        Op::PeekL => Ok(peek_l(&unc(modes_l()).unwrap())),
     }
 }
 
@@ -152,6 +188,8 @@ fn explore(scripts: &[Vec<Op>], bound: Option<usize>, max_branches: usize, budge
         k.len() + 1 + prefill // + the shared scanner's configuration (A), built first
     };
     let want_keys = if scripts.iter().flatten().any(|o| matches!(o, Op::BuildA | Op::BuildA2)) { want_keys - 1 } else { want_keys };
+    let uses_l = scripts.iter().flatten().any(|o| matches!(o, Op::ScanL | Op::ScanL2 | Op::PeekL));
+    let want_keys = want_keys + usize::from(uses_l);
     let scripts_owned: Vec<Vec<Op>> = scripts.to_vec();
     let key_mismatch = Arc::new(AtomicUsize::new(0));
     let (e2, o2, p2, k2) = (execs.clone(), outcomes.clone(), problem.clone(), key_mismatch.clone());
@@ -169,15 +207,17 @@ fn explore(scripts: &[Vec<Op>], bound: Option<usize>, max_branches: usize, budge
                 let _ = ScannerBuilder::new().add_scanner_modes(&m).build();
             }
             let shared = Arc::new(ScannerBuilder::new().add_scanner_modes(&modes_a()).build().expect("A builds"));
+            let shared_l = if uses_l { Some(Arc::new(ScannerBuilder::new().add_scanner_modes(&modes_l()).build().expect("L builds"))) } else { None };
             let hs: Vec<_> = scripts_owned
                 .iter()
                 .cloned()
                 .map(|script| {
                     let shared = shared.clone();
+                    let shared_l = shared_l.clone();
                     thread::spawn(move || {
                         let mut obs = vec![];
                         for op in script {
-                            let r = run_op(op, &shared);
+                            let r = run_op(op, &shared, shared_l.as_deref());
                             let keys = scnr::verif::cache_keys().len();
                             obs.push((r, keys));
                         }
@@ -277,6 +317,23 @@ fn main() {
             }
         }
     }
+    // scans that race on whatever a scanner shares between its iterators (two lookaheads checked
+    // alternately within one token, a third one in another mode), alone and against builds
+    let l_ops = [Op::ScanL, Op::ScanL2, Op::PeekL];
+    for (i, a) in l_ops.iter().enumerate() {
+        for b in l_ops.iter().skip(i) {
+            bodies.push(vec![vec![*a], vec![*b]]);
+            bodies.push(vec![vec![*a], vec![*b], vec![Op::ScanL]]);
+        }
+        bodies.push(vec![vec![*a], vec![Op::BuildA]]);
+        bodies.push(vec![vec![*a, Op::ScanL2], vec![Op::ScanL, *a]]);
+        bodies.push(vec![vec![*a], vec![Op::ScanShared]]);
+    }
+    if let Ok(f) = std::env::var("VERIF_C14_BODY") {
+        // debugging aid: only the bodies whose Debug text contains the given string
+        bodies.retain(|b| format!("{b:?}").contains(&f));
+    }
+    let debug = std::env::var("VERIF_C14_DEBUG").is_ok();
     if tier == Tier::Thorough {
         // three threads, two ops each, builds only
         for a in [Op::BuildA, Op::BuildAPrime] {
@@ -303,6 +360,9 @@ fn main() {
             r = HarnessResult { executions: r.executions + r2.executions, outcomes: r.outcomes.max(r2.outcomes), violation: r2.violation, capped: r2.capped };
         }
         explored_bodies += 1;
+        if debug {
+            eprintln!("body {body:?}: executions {} outcomes {} capped {} violation {:?}", r.executions, r.outcomes, r.capped, r.violation);
+        }
         total_exec += r.executions;
         total_outcomes += r.outcomes;
         if r.outcomes > 1 {
@@ -429,7 +489,7 @@ fn main() {
     cov.insert("bodies_on_a_prefilled_cache".into(), json!(prefilled));
     cov.insert("send_sync_probe".into(), probe);
     cov.insert("supporting_free_running_stress_pass_(sampling)".into(), stress);
-    cov.insert("operations".into(), json!(["build(A)", "build(A) again", "build(A' = A with the lookahead polarity flipped)", "build(Bad = unsupported construct)", "scan of input 1 with a shared Arc<Scanner> (built through the cache; patterns include Unicode classes)", "scan of input 2 with the shared scanner", "find_iter + next + peek_n(3) + drain on the shared scanner"]));
+    cov.insert("operations".into(), json!(["build(A)", "build(A) again", "build(A' = A with the lookahead polarity flipped)", "build(Bad = unsupported construct)", "scan of input 1 with a shared Arc<Scanner> (built through the cache; patterns include Unicode classes)", "scan of input 2 with the shared scanner", "find_iter + next + peek_n(3) + drain on the shared scanner", "scan of two inputs / peek_n(2) + drain with a second shared scanner L (mode L: `[ab]*a(?!!)`, `[ab]*b(?!\\?)`, `[!?]`, `x(?=[ab]+!)` -> mode M: `a(?=b)`, `a(?!b)`, `b`, `!`): two lookaheads are checked alternately within one token"]));
     cov.insert("disagreeing_bodies".into(), json!(n_dis));
     run.finish(
         "model_checking",
